@@ -5,6 +5,8 @@ import json
 import os
 import warnings
 
+from fractions import Fraction
+
 import numpy as np
 
 from common import VERIF, dec_float, enc_bool, enc_float, enc_list, errname
@@ -49,6 +51,9 @@ THEOREMS = [
     "Verif.C03.frame_dead_time_contiguous",
     "Verif.C03.duration_lines",
     "Verif.C03.pixel_ts_spec_duration",
+    "Verif.C03.pixel_time_seconds_spec",
+    "Verif.C03.line_time_seconds_spec",
+    "Verif.C03.duration_seconds_spec",
 ]
 RULE = (
     "corpus (F11 input, split-mode mean witness) + malformed stream (empty wave, nothing used, no boundary, interior "
@@ -68,13 +73,17 @@ RULE = (
     "kymographs whose sample period is so long, or whose start so late, that the per-pixel mean works at the edge of "
     "int64: small scope k<=4, P<=2, <=2 lines, dead<=1, lead<=1 with span*k one step on either side of 2^63, the longest "
     "period that fits, and starts ending at 2^63-1; random quick 400 / thorough 6000 with k<=8, P<=4, <=3 lines). "
-    "Non-trivial: a kymograph/scan case has at least two ranges, or a truncated last line/frame, or delta != dt; a mean "
+    "Deepening round D: op delta (int(1e9/sample_rate) read from the range of a one-sample kymograph: every dt <= 1500 "
+    "(thorough 20000), 10^e+-1, 2^e+-1 up to 1e15, random quick 600 / thorough 20000 up to 1e8 and 1e15); meanrows small "
+    "scope widths 3 and 4 next to every row over four int64 boundary values; the model reports after every mean "
+    "whether all its intermediates fit int64 (must be T for non-negative int64 input) and the number of splits. "
+    "Non-trivial: a delta case has dt>=2; a kymograph/scan case has at least two ranges, or a truncated last line/frame, or delta != dt; a mean "
     "case has two distinct values; a kmean case has k>=2."
 )
 TRUSTED = [
-    "IEEE double division in Lean's Float equals CPython's (delta = int(1e9/(1e9/dt)) is computed by the model in doubles; the theorems hold for every 1 <= delta <= dt and the oracle checks that bound on the implementation's ranges)",
+    "the exact binary64 model rnDiv (exponent from the bit lengths, round-half-even of the scaled quotient; normal range only) describes CPython/NumPy float division, multiplication and int->float conversion: delta = int(1e9/(1e9/dt)) and the seconds values are computed by the model in that arithmetic (kernel-computable; deltaTs_bounds proves 1 <= delta <= dt for dt <= 1e15) and compared on every run with the real code (op c03.delta through Kymo.line_timestamp_ranges, the seconds bit for bit) and with Lean's hardware Float",
     "np.sum of non-negative int64 values whose total fits int64 does not overflow in any summation order (numpy's pairwise order is not modelled; Lemma sublist_sum_bounds covers every sub-sum)",
-    "float64 results (line time, pixel time, duration in seconds) are compared with the model's exact integer nanoseconds within rel 1e-12",
+    "float64 results (line time, pixel time, duration in seconds) agree when the implementation's double is the model's binary64 value bit for bit, or another double within the PROVED bound (1 +- 2^-53)^3 (duration ^5) of the exact integer nanoseconds (so x / 1e9 instead of x * 1e-9 stays green); coverage.seconds_vs_binary64_model counts both kinds",
 ]
 ASSUMPTIONS = [
     "the direct tie to timestamp_mean goes through a private module path (lumicks.pylake.detail.confocal, the anchored place; else any loaded pylake module that still offers the name); when it is out of reach the direct ops answer '?' (ignored by agree/oracle/nontrivial, listed under coverage.private_ties) and the clause stays tied through Kymo.timestamps (op kmean and every kymo/scan case)",
@@ -350,16 +359,37 @@ def ops(case):
     raise ValueError(op)
 
 
-def _close_ns(ia, ma):
-    """implementation: float seconds (bit pattern); model: exact integer nanoseconds"""
+K53 = 2**53
+
+
+def _sec_kind(ia, ma, rounds):
+    """implementation: float seconds (bit pattern); model: "<exact integer nanoseconds> <num>/<den>", the second being
+    the binary64 value of the code's float expression (x * 1e-9, then * lines) as an exact fraction.
+    'exact'  : the implementation's double IS the model's double, bit for bit;
+    'bound'  : it is another double within the PROVED error bound (1 +- 2^-53)^rounds of the exact nanoseconds
+               (pixel_time/line_time_seconds_spec: 3 roundings, duration: 5) - e.g. x / 1e9 instead of x * 1e-9;
+    'off'    : neither (a disagreement)."""
+    parts = ma.split(" ")
+    try:
+        ns = int(parts[0])
+        num, den = (int(x) for x in parts[1].split("/"))
+    except (ValueError, IndexError):
+        return "off"
+    sec = Fraction(dec_float(ia))
+    if sec == Fraction(num, den):
+        return "exact"
+    if ns <= 0:
+        return "off"
+    ratio = sec * 10**9 / ns
+    if Fraction(K53 - 1, K53) ** rounds <= ratio <= Fraction(K53 + 1, K53) ** rounds:
+        return "bound"
+    return "off"
+
+
+def _close_ns(ia, ma, rounds=3):
     if not ia.startswith("b"):
         return ia == ma
-    try:
-        ns = int(ma)
-    except ValueError:
-        return False
-    sec = dec_float(ia)
-    return abs(sec - ns * 1e-9) <= 1e-12 * max(abs(ns) * 1e-9, 1e-300)
+    return _sec_kind(ia, ma, rounds) != "off"
 
 
 def _fits_flag_ok(ma, values):
@@ -391,7 +421,7 @@ def agree(case, i, ia, ma):
         if i == 1:
             return ia == ma.split(" ")[0]  # the model also reports the delta it used
         if i in (3, 4, 5):
-            return _close_ns(ia, ma)
+            return _close_ns(ia, ma, 5 if i == 4 else 3)
         return ia == ma
     if op == "scan":
         if i in (1, 2):
@@ -1003,6 +1033,7 @@ def extra_coverage(results):
     unseen = 0
     sizes = []
     rows_splits, pixel_splits, delta_op = {}, {}, {}
+    seconds = {"exact": 0, "bound": 0, "off": 0}
     for r in results:
         c = r["case"]
         m0 = r["model"][0].split(" ") if r.get("model") else []
@@ -1027,6 +1058,10 @@ def extra_coverage(results):
                     fl = sorted([sum(t) // kk for t in ts] + [0] * (len(vals) - len(ts)))
                     ksplit["split-below-floor"] += vals != fl
         elif c["op"] in ("kymo", "scan"):
+            for idx in ((3, 4, 5) if c["op"] == "kymo" else (3,)):
+                if idx < len(r["impl"]) and r["impl"][idx].startswith("b") and idx < len(r.get("model", [])):
+                    kd = _sec_kind(r["impl"][idx], r["model"][idx], 5 if (c["op"] == "kymo" and idx == 4) else 3)
+                    seconds[kd] = seconds.get(kd, 0) + 1
             iw = wave_of(c)
             sizes.append(len(iw))
             px = structure(c, iw)
@@ -1053,6 +1088,7 @@ def extra_coverage(results):
         "mean_modes": split,
         "kmean_modes": ksplit,
         "delta_op_outcomes": delta_op,
+        "seconds_vs_binary64_model": {"label": "pixel time / line time / duration doubles: bit-exact with the model's binary64 value, or only within the proved (1 +- 2^-53)^3 (duration ^5) of the integer nanoseconds", **seconds},
         "meanrows_splits_per_row": dict(sorted(rows_splits.items(), key=lambda kv: int(kv[0]))),
         "pixel_mean_splits_per_pixel": dict(sorted(pixel_splits.items(), key=lambda kv: int(kv[0]))),
         "private_ties": {
